@@ -106,14 +106,16 @@ theorem memory_cap (p : Params) (ncpu : Nat) :
 /-! ### accuracy of the float arithmetic -/
 
 /-- **Unbound workload: quota/period = cpu limit to the nearest unit** (after the `math.Round` fix).
-The hypothesis `2^-1022 ≤ cpu·100000` only excludes subnormal products. -/
-theorem quota_nearest (cpu : Rat) (hc : 0 < cpu) (hn : F64.pow2 (-1022) ≤ cpu * 100000) :
-    QuotaNear (quotaOf cpu) cpu := quotaOf_near cpu hc hn
+The hypothesis `2^-1022 ≤ cpu·100000` only excludes subnormal products; `cpu < 10^7` keeps Go's
+`int64(...)` conversion in range (beyond it the conversion is implementation specific and the model
+returns MinInt64). -/
+theorem quota_nearest (cpu : Rat) (hc : 0 < cpu) (hn : F64.pow2 (-1022) ≤ cpu * 100000) (hb : cpu < 10000000) :
+    QuotaNear (quotaOf cpu) cpu := quotaOf_near cpu hc hn hb
 
 /-- on the decimal grid the quota is exact: limit·100000 within 1/4 of the integer `k` ⇒ quota = k
 (0.29 ⇒ 29000, whatever the last bit of the double) -/
 theorem quota_exact_on_grid (cpu : Rat) (k : Int) (hc : 0 < cpu) (hn : F64.pow2 (-1022) ≤ cpu * 100000)
-    (hk : |cpu * 100000 - (k : Rat)| ≤ 1 / 4) (hb : cpu * 100000 ≤ 2 ^ 50) : quotaOf cpu = k :=
+    (hk : |cpu * 100000 - (k : Rat)| ≤ 1 / 4) (hb : cpu < 10000000) : quotaOf cpu = k :=
   quotaOf_exact cpu k hc hn hk hb
 
 /-- **Bound workload: shares proportional to the fractional core** -/
@@ -126,7 +128,7 @@ theorem sameSet_self (l : List String) : sameSet l l = true := by
 
 /-- **The create path meets the whole specification** the oracle evaluates on the real engine:
 for every valid engine-params record (float products in the normal range) no clause is violated. -/
-theorem create_meets_spec (p : Params) (ncpu : Nat) (r : Res) (hv : Valid p)
+theorem create_meets_spec (p : Params) (ncpu : Nat) (r : Res) (hv : Valid p) (hbnd : p.cpu < 10000000)
     (hq : p.cores = [] → 0 < p.cpu → F64.pow2 (-1022) ≤ p.cpu * 100000)
     (hs : p.cores ≠ [] → 0 < F64.frac p.cpu → F64.pow2 (-1022) ≤ 1024 * F64.frac p.cpu)
     (h : create p = .ok r) : violations .create p ncpu r = [] := by
@@ -136,7 +138,7 @@ theorem create_meets_spec (p : Params) (ncpu : Nat) (r : Res) (hv : Valid p)
     by_cases hc : 0 < p.cpu
     · obtain ⟨h1, h2, h3, h4⟩ := (unbound_quota p ncpu hb hc).1 r h
       obtain ⟨h5, h6⟩ := (memory_cap p ncpu).1 r h
-      have hqn := quota_nearest p.cpu hc (hq hb hc)
+      have hqn := quota_nearest p.cpu hc (hq hb hc) hbnd
       have hper : r.period = cpuPeriodBase := by
         unfold create at h; split at h
         · cases h
@@ -163,7 +165,7 @@ theorem create_meets_spec (p : Params) (ncpu : Nat) (r : Res) (hv : Valid p)
 
 
 /-- **The update path meets the whole specification** (bound, remapped and unbound records). -/
-theorem update_meets_spec (p : Params) (ncpu : Nat) (r : Res) (hv : Valid p) (hn0 : ncpu ≠ 0)
+theorem update_meets_spec (p : Params) (ncpu : Nat) (r : Res) (hv : Valid p) (hn0 : ncpu ≠ 0) (hbnd : p.cpu < 10000000)
     (hq : (p.cores = [] ∨ p.remap = true) → 0 < p.cpu → F64.pow2 (-1022) ≤ p.cpu * 100000)
     (hs : p.cores ≠ [] → 0 < F64.frac p.cpu → F64.pow2 (-1022) ≤ 1024 * F64.frac p.cpu)
     (h : update p ncpu = .ok r) : violations .update p ncpu r = [] := by
@@ -185,7 +187,7 @@ theorem update_meets_spec (p : Params) (ncpu : Nat) (r : Res) (hv : Valid p) (hn
   by_cases hb : p.cores = []
   · by_cases hc : 0 < p.cpu
     · obtain ⟨h1, h2, h3⟩ := (unbound_quota p ncpu hb hc).2 r h
-      have hqn := quota_nearest p.cpu hc (hq (Or.inl hb) hc)
+      have hqn := quota_nearest p.cpu hc (hq (Or.inl hb) hc) hbnd
       rw [← h1] at hqn
       have hmems : r.mems = "" := by
         have hc0' : ¬ p.cpu = 0 := fun e => by rw [e] at hc; exact absurd hc (by decide)
@@ -207,7 +209,7 @@ theorem update_meets_spec (p : Params) (ncpu : Nat) (r : Res) (hv : Valid p) (hn
     have hc0' : ¬ p.cpu = 0 := fun e => by rw [e] at hc; exact absurd hc (by decide)
     by_cases hr : p.remap = true
     · -- remapped onto shared cores: pinned, quota kept, default shares
-      have hqn := quota_nearest p.cpu hc (hq (Or.inr hr) hc)
+      have hqn := quota_nearest p.cpu hc (hq (Or.inr hr) hc) hbnd
       have hres : r.cpuset = p.cores ∧ r.mems = p.numa ∧ r.quota = quotaOf p.cpu ∧ r.shares = 1024 := by
         unfold update at h; split at h
         · cases h
